@@ -191,7 +191,8 @@ pub fn run(ctx: &mut Ctx) {
                 ctx.count("second-request-of-session");
             }
             let (dk, _) = dev_view(&dev);
-            let msg = session_data(Some(&aes_encrypt(&dk.sk_reader, &iso_iv(false, dk.reader_ctr as u32 + 1), &to_bytes(&request))), None);
+            let req_bytes = if ci % 3 == 1 { ctx.loose_bytes(&request) } else { to_bytes(&request) };
+            let msg = session_data(Some(&aes_encrypt(&dk.sk_reader, &iso_iv(false, dk.reader_ctr as u32 + 1), &req_bytes)), None);
             let r = catch(|| dev.handle_request(&msg));
             let obs = match &r {
                 Ok(o) if o.errors.is_empty() || o.errors.keys().all(|k| k == "parsing_errors") && !o.items_request.is_empty() => uint(match o.reader_authentication {
